@@ -125,7 +125,21 @@ def rand_text(rng, nchars):
 def rand_bytes(rng, n):
     if n == 0:
         return b''
-    mode = rng.randrange(5)
+    mode = rng.randrange(6)
+    if mode == 5 and n >= 16:
+        # incompressible (deflate falls back to stored blocks) and containing
+        # the four octets of the sync-flush tail, 00 00 ff ff
+        seed = rng.getrandbits(64).to_bytes(8, 'big')
+        out = b''
+        k = 0
+        while len(out) < n:
+            out += hashlib.sha256(seed + k.to_bytes(4, 'big')).digest()
+            k += 1
+        out = bytearray(out[:n])
+        for _ in range(rng.choice([1, 1, 3])):
+            at = rng.randrange(0, n - 4)
+            out[at:at + 4] = b'\x00\x00\xff\xff'
+        return bytes(out)
     if mode == 0:
         return bytes([rng.randrange(256)]) * n
     if mode == 1:
